@@ -32,7 +32,12 @@ def link_np(kind, h):
 
 
 def gen_case(g, kind, Dx, Dy, Dk, Da, scn, scale=Fr(1), N=1):
-    d = c16.gen_case(g, kind, Dx, Dy, Dk, Da=Da)
+    while True:
+        d = c16.gen_case(g, kind, Dx, Dy, Dk, Da=Da)
+        # parts: every noise unit loads on y (a zero column of A_k gives quadratic integral 0, whose logarithm the log
+        # domain cannot carry; the bound itself is checked for such units in the "bound" scenario)
+        if scn != "parts" or all(any(d["A"][i][k] != 0 for i in range(Dy)) for k in range(Dk)):
+            break
     d["scn"] = scn
     d["scale"] = scale
     # input weights scaled (offset kept): the homoscedastic limit is scale -> 0
@@ -55,8 +60,17 @@ def gen_descs(g, tier):
             for Da in (Dy, Dy + 1):
                 out.append(gen_case(g, kind, Dx, Dy, Dk, Da, "cond_x"))
         # bounds: Da = Dy and Da > Dy, one and several paired observations
-        for (Dx, Dy, Dk, Da, N) in [(1, 1, 1, 1, 1), (1, 2, 1, 2, 2), (1, 1, 1, 2, 1)] + ([(2, 1, 1, 1, 1)] if kind in ("exp", "coshm1") else []):
+        for (Dx, Dy, Dk, Da, N) in [(1, 1, 1, 1, 1), (1, 2, 1, 2, 2), (1, 1, 1, 2, 1), (2, 1, 1, 1, 1)] + ([] if q else [(2, 2, 1, 2, 2)]):
             out.append(gen_case(g, kind, Dx, Dy, Dk, Da, "bound", N=N))
+        # Dx = 2, the projected residual a deterministic function of the noise unit's input: M proportional to w' (Dy = 1)
+        dcol = gen_case(g, kind, 2, 1, 1, 1, "bound", N=1)
+        dcol["M"] = [[v * 2 for v in dcol["W"][0][1:]]] if g.randint(0, 1) else [[Fr(0), Fr(0)]]
+        dcol["collinear"] = True
+        out.append(dcol)
+        # a noise unit that does not load on y at all (zero column of A_k; needs Da > Dy): its terms vanish, the value stays finite
+        dz = gen_case(g, kind, 1, 1, 1, 2, "bound", N=2)
+        dz["A"] = [[Fr(0), g.qnz()]]
+        out.append(dz)
         # the pieces of the bound through the model (exp / cosh-1): quadratic integrals, k_func, assembly
         if kind in ("exp", "coshm1"):
             for (Dx, Dy, Dk, Da, N) in [(1, 1, 1, 1, 1), (2, 2, 2, 2, 2), (2, 1, 1, 2, 2)] + ([] if q else [(1, 2, 2, 2, 1), (3, 2, 1, 3, 2), (2, 2, 2, 3, 3)]):
@@ -79,7 +93,7 @@ def search_descs(g, failing, tier):
     return [C.J(gen_case(g, d["kind"], 1, 1, 1, 1, d["scn"] if d["scn"] != "tight" else "bound")) for d in failing[:8]]
 
 
-hist = lambda d: dict(kind=d["kind"], scn=d["scn"], Dx=d["Dx"], Dy=d["Dy"], Dk=d["Dk"], Da=d["Da"], scale=str(d.get("scale")))
+hist = lambda d: dict(kind=d["kind"], scn=d["scn"], Dx=d["Dx"], Dy=d["Dy"], Dk=d["Dk"], Da=d["Da"], scale=str(d.get("scale")), collinear=bool(d.get("collinear")))
 nontrivial = lambda d: d["Dx"] * d["Dy"] * d["Dk"] > 1 or d["Da"] > d["Dy"]
 scenario = lambda d: "%s/%s/%s" % (d["kind"], d["scn"], "Da=Dy" if d["Da"] == d["Dy"] else "Da>Dy")
 
@@ -107,6 +121,8 @@ def true_expected_logp(d, r, y):
         X, w = c16.gl_nodes_1d(mu[0], math.sqrt(S[0, 0]), kinks)
     elif smooth and Dx == 2:
         X, w = c16.gh_nodes(mu, S, 110)
+    elif Dx == 2 and d["Dk"] == 1 and any(v != 0 for v in d["W"][0][1:]):
+        X, w = c16.kink_nodes_2d(mu, S, gtlib.fl(d["W"][0][1:]), float(d["W"][0][0]))      # one kink line
     else:
         return None
     m, Sg, _ = true_parts(d, X)
@@ -182,6 +198,11 @@ def run_impl(d):
         fails.append(lin.fail(["C17"], "one bound per observation / prior pair expected, got shape %s" % (lb.shape,), site + ".integrate_log_conditional_y"))
         return ob, fails
     gaps = []
+    zero_unit = any(all(v == 0 for v in row[1:]) for row in d["W"])
+    # (step / rectified-linear link with a noise unit whose input weights are all zero: h is a constant, the truncated-Gaussian
+    #  route of the code degenerates (0/0); the property claims the zero-weight limit for the exp and cosh-1 links only)
+    if not np.all(np.isfinite(lb)) and not (zero_unit and kind in ("heaviside", "relu")):
+        fails.append(lin.fail(["C17"], "returned bound is not finite", site + ".integrate_log_conditional_y", None, values=[float(v) for v in lb]))
     for r in range(N):
         if truth[r] is None:
             continue
@@ -284,3 +305,7 @@ def alt_terms(d):
     if d["scn"] != "cond_x" or c16.gtlib_fp(d) not in SEAMS:
         return []
     return [coq_cx(d, SEAMS[c16.gtlib_fp(d)], "false")]
+
+
+# objects with a history (lin.with_history): dry run on the before-state objects, in-place mutation, observed run
+run_impl = lin.with_history(run_impl)
